@@ -70,6 +70,16 @@ def pairs(tier):
                 for kw in ["broadcast=True", "broadcast=False", "npartitions=3"]:
                     out.append((P(base, [srcL, srcR2]), f"L.merge(R, left_on='c', right_on='e', how={how!r}, {kw})", "merge-knobs-keys"))
                     out.append((P(f"R.merge(L, left_on='e', right_on='c', how={how!r})", [srcL, srcR2]), f"R.merge(L, left_on='e', right_on='c', how={how!r}, {kw})", "merge-knobs-keys-swapped"))
+        # a merge key that is the (named) index of one side and a column of the other
+        if n >= 2:
+            srcLI = Src("LI", n, {"b": "f", "c": "i"}, n, how="delayed", cuts=tuple(range(n + 1)), index_name="a")
+            for m in (2, 3):
+                srcR3 = Src("R", m, RCOLS, m, how="delayed", cuts=tuple(range(m + 1)))
+                for how in ("inner", "left", "right"):
+                    base = f"LI.merge(R, on='a', how={how!r})"
+                    for kw in ["broadcast=True", "broadcast=False", "npartitions=3"]:
+                        out.append((P(base, [srcLI, srcR3]), f"LI.merge(R, on='a', how={how!r}, {kw})", "merge-knobs-index-key"))
+                        out.append((P(f"R.merge(LI, on='a', how={how!r})", [srcLI, srcR3]), f"R.merge(LI, on='a', how={how!r}, {kw})", "merge-knobs-index-key"))
         # merges: broadcast vs hash join, npartitions hint
         for m in (1, 2, 4) if tier == "quick" else (1, 2, 3, 4, 6):
             srcR = Src("R", m, RCOLS, m, how="delayed", cuts=tuple(range(m + 1)))
